@@ -98,12 +98,22 @@ Fixpoint mask_of (ch : list (N * filt)) : N :=
 (** filters that do not look at the context: for them acceptance is a function of the metadata alone *)
 Fixpoint ctx_free (f : filt) : Prop :=
   match f with
-  | FDyn _ => False
+  | FDyn _ | FEnv _ _ _ => False
   | FAnd a b | FOr a b => ctx_free a /\ ctx_free b
   | FNot a => ctx_free a
   | _ => True
   end.
-Definition static_accept (ch : list (N * filt)) (m : meta) : bool := forallb (fun e => f_enabled (snd e) m None) ch.
+(** finding F12 (property C08) excluded: an EnvFilter registers `always` for every span a span directive matches, while
+    its [enabled] looks at span directives only for levels some span directive can enable; [f12_free f m] says [m] is not
+    such a span (for every EnvFilter leaf of [f]) *)
+Fixpoint f12_free (f : filt) (m : meta) : Prop :=
+  match f with
+  | FEnv _ _ dy => is_span m && dyn_matches dy m = true -> m_level m <= dyn_max dy
+  | FAnd a b | FOr a b => f12_free a m /\ f12_free b m
+  | FNot a => f12_free a m
+  | _ => True
+  end.
+Definition static_accept (ch : list (N * filt)) (m : meta) : bool := forallb (fun e => f_enabled (snd e) m []) ch.
 
 Definition delivered (n : N) (w : what) (out : list obs) : Prop :=
   exists cur sc par nav, In (ODeliver n w cur sc par nav) out.
@@ -117,11 +127,17 @@ Definition only (w : what) (out : list obs) : Prop :=
   forall n w' cur sc par nav, In (ODeliver n w' cur sc par nav) out -> w' = w.
 Definition alive (st : state) (id : N) : Prop := sp_get st id <> None.
 
-(** the global max level is sound: above it nobody accepts anything, whatever the context
-    (the static summaries are property C08; the model takes the level as a parameter of a run) *)
+(** no EnvFilter leaf of the stack is in the F12 situation for this metadata *)
+Definition F12Free (c : coll) (m : meta) : Prop :=
+  (forall g, In g (coll_globs c) -> f12_free g m) /\
+  (forall r e, In r (coll_recs c) -> In e (snd r) -> f12_free (snd e) m).
+(** the static summaries the macros rely on are sound (they are property C08; the model takes the level as a parameter of
+    a run): above the global max level nobody accepts anything, whatever the context; and no callsite of the pool is in
+    the F12 situation for an EnvFilter of the stack *)
 Definition HintSound (c : coll) (mx : N) (pool : list meta) : Prop :=
-  forall cs st, mx < m_level (meta_of pool cs) ->
-    forall r, In r (coll_recs c) -> globals_accept c st (meta_of pool cs) && chain_accept st 0 (snd r) (meta_of pool cs) = false.
+  (forall cs st, mx < m_level (meta_of pool cs) ->
+     forall r, In r (coll_recs c) -> globals_accept c st (meta_of pool cs) && chain_accept st 0 (snd r) (meta_of pool cs) = false) /\
+  (forall cs, F12Free c (meta_of pool cs)).
 
 (** what one operation owes to every leaf.  [past]: the (leaf, span) pairs of all earlier [on_new_span]
     notifications; [st] / [st'] the state before / after. *)
